@@ -25,7 +25,7 @@ ASSUMPTIONS = [
     "induction over program length (U is a left fold of CompiledCircuit.add) is stated, not discharged by the solver",
 ]
 BOUNDS = {
-    "quick": "H1: n<=3 real modes, <=1 earlier loss mode, arbitrary symbolic accumulated matrix; H2: programs of 2 public calls on Circuit(n<=3), incl. parent with a heralded sub-circuit; H3: one call with unconstrained real parameter",
+    "quick": "H1: n<=3 real modes, <=1 earlier loss mode, arbitrary symbolic accumulated matrix; H2: programs of 2 public calls on Circuit(n<=3), incl. parent with a heralded sub-circuit; H3: one call with unconstrained real parameter; H4: bs/ps/loss with the loss given as a plain value or a Parameter (incl. value 0)",
     "thorough": "H1: n<=4, <=2 earlier loss modes; H2: programs of 3 calls on Circuit(n<=3) and 2 calls on Circuit(4)",
 }
 OUTSIDE = "float rounding; mode counts above the bound; program length beyond the bound except through the stated induction; check_unitary tolerance treated as exact 1e-10"
